@@ -669,17 +669,59 @@ def install_spies():
         def mk(orig, name):
             @functools.wraps(orig)
             def spy(self, *a, **kw):
-                out = orig(self, *a, **kw)
                 rec = CUR
+                pre = None
+                want = (rec is not None and "lfn" in rec.monitors
+                        and len(rec.notes.get("lfn", [])) < int(rec.case.get("lfn_cap", 6)))
+                if want and name in ("update_interpolation", "shift_x_base"):
+                    try:
+                        pre = _models_snap(self)
+                    except Exception:  # noqa
+                        _spy_failed(rec, "Models." + name + " (lfn monitor, before)")
+                out = orig(self, *a, **kw)
                 if rec is not None and "models" in rec.monitors:
                     try:
                         _models_check(rec, self, name, a, out)
                     except Exception:  # noqa
                         _spy_failed(rec, "Models." + name + " (monitor)")
+                if want:
+                    try:
+                        ent = {"op": name, "pre": pre, "post": _models_snap(self)}
+                        if name == "update_interpolation":
+                            ent["k"] = int(a[0] if a else kw.get("k_new"))
+                            ent["ill"] = bool(out)
+                        rec.notes.setdefault("lfn", []).append(ent)
+                    except Exception:  # noqa
+                        _spy_failed(rec, "Models." + name + " (lfn monitor)")
                 return out
             return spy
 
         setattr(M, name, mk(orig, name))
+    # --- Models.determinants (for C14 in real runs) ------------------------
+    orig_det = M.determinants
+    _ORIG["Models.determinants"] = orig_det
+
+    @functools.wraps(orig_det)
+    def spy_det(self, *a, **kw):
+        out = orig_det(self, *a, **kw)
+        rec = CUR
+        if rec is not None and "dets" in rec.monitors:
+            try:
+                log = rec.notes.setdefault("dets", [])
+                rec.notes["dets_total"] = rec.notes.get("dets_total", 0) + 1
+                if len(log) < int(rec.case.get("dets_cap", 12)):
+                    x_new = a[0] if a else kw.get("x_new")
+                    k_new = a[1] if len(a) > 1 else kw.get("k_new")
+                    log.append({"xpt": np.array(self.interpolation.xpt, float, copy=True),
+                                "x_base": np.array(self.interpolation.x_base, float, copy=True),
+                                "x_new": np.array(x_new, float, copy=True),
+                                "k": None if k_new is None else int(k_new),
+                                "out": np.array(out, float, copy=True)})
+            except Exception:  # noqa
+                _spy_failed(rec, "Models.determinants (monitor)")
+        return out
+
+    M.determinants = spy_det
     orig_minit = M.__init__
     _ORIG["Models.__init__"] = orig_minit
 
@@ -692,6 +734,11 @@ def install_spies():
                 _models_check(rec, self, "init", (), None)
             except Exception:  # noqa
                 _spy_failed(rec, "Models.__init__ (monitor)")
+        if rec is not None and "lfn" in rec.monitors:
+            try:
+                rec.notes.setdefault("lfn", []).append({"op": "init", "pre": None, "post": _models_snap(self)})
+            except Exception:  # noqa
+                _spy_failed(rec, "Models.__init__ (lfn monitor)")
         return out
 
     M.__init__ = spy_minit
@@ -753,6 +800,19 @@ def _pts_state(fw):
                              np.max(np.abs(xl[np.isfinite(xl)]), initial=1.0),
                              np.max(np.abs(xu[np.isfinite(xu)]), initial=1.0))),
     }
+
+
+def _models_snap(models):
+    """Copy of everything that defines the models (C13 in real runs)."""
+    it = models.interpolation
+    quads = [models._fun] + list(models._cub) + list(models._ceq)
+    vals = [np.array(models.fun_val, float, copy=True)]
+    vals += [np.array(models.cub_val[:, i], float, copy=True) for i in range(models.m_nonlinear_ub)]
+    vals += [np.array(models.ceq_val[:, i], float, copy=True) for i in range(models.m_nonlinear_eq)]
+    return {"xpt": np.array(it.xpt, float, copy=True), "x_base": np.array(it.x_base, float, copy=True),
+            "vals": vals,
+            "quads": [(float(q._const), np.array(q._grad, float, copy=True), np.array(q._i_hess, float, copy=True),
+                       np.array(q._e_hess, float, copy=True)) for q in quads]}
 
 
 def _models_check(rec, models, name, args, out):
